@@ -97,8 +97,10 @@ type c18Pool struct {
 	intact   []bool // an unfaulted corpus file: the only kind the real vec back end is given
 	pals     []*[64]color.RGBA
 	progs    [][]world.Op
-	rstops   [][]render.Stop // gradient stops in the Renderer's own form, shared by direct users of render.Gradient
-	firstUse [][]world.Op    // earlier uses of an object that lives through two uses: may start without Reset, with observers
+	grad     *render.Gradient // an initialised gradient shared as a read-only image source
+	mdPaths  []*mdicons.Path  // parsed SVG paths shared by several conversions
+	rstops   [][]render.Stop  // gradient stops in the Renderer's own form, shared by direct users of render.Gradient
+	firstUse [][]world.Op     // earlier uses of an object that lives through two uses: may start without Reset, with observers
 	cregs    *[64]color.RGBA
 	// option values built once per case and shared by every task that decodes
 	// with options (an application keeps such values around and reuses them)
@@ -241,6 +243,24 @@ func c18BuildPool(ctx *Ctx, t *tape.Tape) *c18Pool {
 			}
 		}
 	}
+	p.grad = &render.Gradient{}
+	p.grad.Init(render.Shape(t.Intn(2)), render.Spread(1+t.Intn(3)), render.Aff3{1.0 / 32, 0, 0, 0, 1.0 / 32, 0}, []render.Stop{
+		{Offset: 0.125, RGBA64: color.RGBA64{0xffff, 0, 0x1111, 0xffff}},
+		{Offset: float64(2+t.Intn(5)) / 8, RGBA64: color.RGBA64{0, uint16(t.Intn(0x8000)), 0x7fff, 0x7fff}},
+		{Offset: 0.875, RGBA64: color.RGBA64{0x1234, 0x4321, uint16(t.Intn(0xffff)), 0xffff}},
+	})
+	for i := 0; i < 2; i++ {
+		mp := &mdicons.Path{D: world.GenPathData(t, false)}
+		if t.Chance(3, 4) {
+			o := float32(1+t.Intn(4)) / 4
+			mp.Opacity = &o
+		}
+		if t.Chance(3, 4) {
+			o := float32(1+t.Intn(4)) / 4
+			mp.FillOpacity = &o
+		}
+		p.mdPaths = append(p.mdPaths, mp)
+	}
 	p.cregs = world.GenPalette(t)
 	p.cregs[t.Intn(64)] = color.RGBA{uint8(t.Intn(256)), uint8(t.Intn(256)), uint8(t.Intn(256)), 0}
 	idx := t.Intn(64)
@@ -277,6 +297,17 @@ func (p *c18Pool) hash() uint64 {
 	}
 	for _, c := range p.cregs {
 		h = fnvAdd(h, uint64(c.R)|uint64(c.G)<<8|uint64(c.B)<<16|uint64(c.A)<<24)
+	}
+	h = fnvAdd(h, world.DeepHash(p.grad))
+	for _, mp := range p.mdPaths {
+		h = fnvAdd(h, fnv([]byte(mp.D+"|"+mp.Fill)))
+		for _, o := range []*float32{mp.Opacity, mp.FillOpacity} {
+			if o == nil {
+				h = fnvAdd(h, 1)
+			} else {
+				h = fnvAdd(h, uint64(float32bits(*o))<<1)
+			}
+		}
 	}
 	// variadic tables: every slot of the backing array, also beyond len
 	for _, o := range p.opts[:cap(p.opts)] {
@@ -339,7 +370,7 @@ func c18MakeTask(t *tape.Tape, p *c18Pool) c18Task {
 	if logged {
 		suffix += " via DestinationLogger"
 	}
-	switch t.Pick(4, 2, 4, 3, 1, 2, 3, 3, 2, 1, 2, 2, 1, 1, 2, 2, 1) {
+	switch t.Pick(4, 2, 4, 3, 1, 2, 3, 3, 2, 1, 2, 2, 1, 1, 2, 2, 1, 2) {
 	case 0:
 		return c18Task{name: "decode->Renderer->recording rasteriser" + suffix, run: func() string {
 			z := &world.RecRaster{}
@@ -484,11 +515,18 @@ func c18MakeTask(t *tape.Tape, p *c18Pool) c18Task {
 		d := world.GenPathData(t, false)
 		op := float32(t.Intn(5)) / 4
 		circles := []mdicons.Circle{{Cx: 24, Cy: 24, R: float32(1 + t.Intn(8))}}
+		var shared *mdicons.Path
+		if t.Bool() {
+			shared = p.mdPaths[t.Intn(len(p.mdPaths))]
+		}
 		return c18Task{name: "mdicons.ParsePath (opacity blend, circles) -> Encoder", run: func() string {
 			var e encode.Encoder
 			e.Reset(ivg.ViewBox{MinX: -24, MinY: -24, MaxX: 24, MaxY: 24}, ivg.DefaultPalette)
 			adjs := map[float32]uint8{}
 			path := &mdicons.Path{D: d, Opacity: &op}
+			if shared != nil {
+				path = shared // the same parsed path converted by several pipelines
+			}
 			err := mdicons.ParsePath(wrap(&e), path, adjs, 48, f32.Vec2{0, 0}, 48, circles)
 			b, berr := e.Bytes()
 			return fmt.Sprintf("err=%s bytes-err=%s %d bytes %016x adjs=%d", errText(err), errText(berr), len(b), fnv(b), len(adjs))
@@ -570,6 +608,35 @@ func c18MakeTask(t *tape.Tape, p *c18Pool) c18Task {
 				}
 			}
 			return fmt.Sprintf("ok=%t digest %016x", ok, h)
+		}}
+	case 17:
+		// one initialised render.Gradient shared as a read-only source image:
+		// sampled directly (a colour is kept across the next lookup, as any
+		// consumer of image.Image may do) and used as the fill of a real
+		// rasteriser drawing into the task's own image
+		x0, y0 := t.Intn(24), t.Intn(24)
+		w, h := 4+t.Intn(20), 4+t.Intn(20)
+		return c18Task{name: "shared render.Gradient as a read-only image source", run: func() string {
+			g := p.grad
+			hh := uint64(7)
+			for y := y0; y < y0+6; y++ {
+				prev := g.At(x0, y)
+				for x := x0 + 1; x < x0+9; x++ {
+					cur := g.At(x, y)
+					r, gg, b, a := prev.RGBA()
+					hh = fnvAdd(hh, uint64(r)|uint64(gg)<<16|uint64(b)<<32|uint64(a)<<48)
+					prev = cur
+				}
+			}
+			img := image.NewRGBA(image.Rect(0, 0, w, h))
+			vz := vec.NewRasterizer(img)
+			vz.Reset(w, h)
+			vz.MoveTo(0, 0)
+			vz.LineTo(float32(w), 0)
+			vz.LineTo(float32(w)/2, float32(h))
+			vz.ClosePath()
+			vz.Draw(img.Bounds(), g, image.Point{X: x0, Y: y0})
+			return fmt.Sprintf("samples %016x pixels %016x", hh, fnv(img.Pix))
 		}}
 	default:
 		vbs := []ivg.ViewBox{ivg.DefaultViewBox, {MinX: 0, MinY: 0, MaxX: 48, MaxY: 24}}
